@@ -214,7 +214,7 @@ PROPS['C09'] = Prop(
 
 PROPS['C10'] = Prop(
     functions=['policy:Enforcer.set_rules', '_cache_handler:read_cached_file', '_cache_handler:delete_cached_file',
-               'policy:Enforcer._is_directory_updated'],
+               'policy:Enforcer._is_directory_updated', 'policy:Enforcer._record_file_rules', 'policy:Enforcer._load_policy_file'],
     bounded=[('bounded.loader', 'c10')],
     level='other',
     technique='contract-based deductive verification (own VC generator + z3) of the file cache, the directory change detector and set_rules; their composition in load_rules is decided by a labelled bounded stand-in (exhaustive short and random long file-operation histories on real files with a controlled clock)',
@@ -227,7 +227,10 @@ PROPS['C10'] = Prop(
                 'ConfigFilesPermissionDeniedError; delete_cached_file removes exactly one entry; _is_directory_updated reports a '
                 'directory as updated exactly when its own modification time or that of one of its entries is newer than the '
                 'stamp kept for it, and the stamp kept afterwards dominates all of them (so deletions, creations and rewrites '
-                'are all noticed once); set_rules as specified. '
+                'are all noticed once); _load_policy_file applies a file whenever the cache had to re-read it (forced, uncached, '
+                'newer, missing) or the rule store is empty, and otherwise touches nothing; applying it records the file\'s names '
+                '(_record_file_rules: a fresh record in overwrite mode, the old one extended in update mode, one fresh RuleDefault '
+                'per name, nothing else written) before the new store is published; set_rules as specified. '
                 'The composition of these helpers in load_rules is not proved.',
     assumptions=['every change advances modification times of the file and of its directory (the property\'s own assumption)',
                  'removing a whole policy directory after it was loaded is outside the statement',
@@ -235,7 +238,7 @@ PROPS['C10'] = Prop(
 )
 
 PROPS['C11'] = Prop(
-    functions=['policy:Enforcer._handle_deprecated_rule'],
+    functions=['policy:Enforcer._handle_deprecated_rule', 'policy:Enforcer._record_file_rules'],
     bounded=[('bounded.loader', 'c11')],
     level='other',
     technique='contract-based deductive verification of _handle_deprecated_rule (own VC generator + z3) + complete enumeration of the table through load_rules/enforce',
@@ -249,7 +252,7 @@ PROPS['C11'] = Prop(
 
 PROPS['C12'] = Prop(
     functions=['policy:Enforcer._handle_deprecated_rule', '_checks:AndCheck.add_check', '_checks:OrCheck.add_check',
-               'policy:Enforcer.register_default'],
+               'policy:Enforcer.register_default', 'policy:Enforcer._record_file_rules', 'policy:Enforcer._load_policy_file'],
     bounded=[('bounded.loader', 'c12')],
     level='other',
     technique='contract-based frame obligations on the merging function (own VC generator + z3) + bounded interleavings for idempotence',
@@ -263,7 +266,7 @@ PROPS['C12'] = Prop(
 )
 
 PROPS['C20'] = Prop(
-    functions=['policy:Enforcer.set_rules'],
+    functions=['policy:Enforcer.set_rules', 'policy:Enforcer._load_policy_file'],
     bounded=[('bounded.loader', 'c20')],
     level='other',
     technique='contract-based sufficient condition (single publication of the rule store, discharged for set_rules) + replayed schedules: one preemption at every source-line boundary of a reload',
